@@ -168,3 +168,36 @@ pub fn parts(model: &Option<Sexp>) -> Option<(Sexp, Sexp, usize)> {
     let (o, g, p) = result_parts(m)?;
     Some((o.clone(), g.clone(), p.as_atom()?.parse().ok()?))
 }
+
+/// a hand-written (program, source) pair: each mode x each debug configuration given, against the model (error variant hard).
+/// Returns the outcome classes in the order run; `None` when the implementation does not load the program.
+pub fn fixed_case(rep: &mut Report, runner: &mut Runner, tsg: &str, src: &str, debugs: &[Option<(String, String, String)>]) -> Option<Vec<String>> {
+    use crate::gen::dsl::Program;
+    use crate::props::common::{load, Loaded, Source};
+    let file = match load(tsg) {
+        Ok(Ok(f)) => f,
+        other => {
+            rep.fail("direct", &format!("{} a hand-written program is not loaded", runner.prop), true,
+                json!({"tsg": tsg, "result": format!("{:?}", other.map(|x| x.map(|_| "file")))}));
+            return None;
+        }
+    };
+    let source = Source { src: src.to_string(), tree: crate::tree::parse_python(src) };
+    let info = TreeInfo::new(&source.tree);
+    let loaded = Loaded { program: Program { text: tsg.to_string(), header: String::new(), stanzas: vec![tsg.to_string()], globals: vec![], stanza_count: 1, has_fault: false, features: vec![], static_fault: None }, file };
+    let mi = crate::execx::model_input(&loaded.file, &source.tree, &source.src, &info);
+    runner.set_tree(&info, &source.src);
+    runner.table = OracleTable::new();
+    runner.table.arm_sets = crate::astx::scan_arm_sets(&loaded.file);
+    let case = Case { tsg, loaded: &loaded, source: &source, info: &info, mi: &mi };
+    rep.case(&format!("{}\u{0}{}", tsg, src), true);
+    rep.count("hand-written-case");
+    let mut classes = Vec::new();
+    for debug in debugs {
+        for lazy in [false, true] {
+            let res = runner.check_mode(rep, &case, &RunCfg { lazy, globals: vec![], outer_globals: vec![], debug: debug.clone(), cancel_at: None }, true, false);
+            classes.push(res.class);
+        }
+    }
+    Some(classes)
+}
